@@ -1390,6 +1390,8 @@ impl Backend for GitBackend {
                         source: Box::new(err),
                     })?;
 
+            #[cfg(jj_vcs_jj_verif)]
+            crate::verif_hooks::point("git.commit_object_written", &git_id);
             match table.get_value(git_id.as_bytes()) {
                 Some(existing_extras) if existing_extras != extras => {
                     // It's possible a commit already exists with the same
@@ -1417,12 +1419,16 @@ impl Backend for GitBackend {
             .edit_reference(to_no_gc_ref_update(&id))
             .map_err(|err| BackendError::Other(Box::new(err)))?;
 
+        #[cfg(jj_vcs_jj_verif)]
+        crate::verif_hooks::point("git.no_gc_ref_written", &id.hex());
         // Update the signature to match the one that was actually written to the object
         // store
         contents.committer.timestamp.timestamp = MillisSinceEpoch(committer.time.seconds * 1000);
         let mut mut_table = table.start_mutation();
         mut_table.add_entry(id.to_bytes(), extras);
         self.save_extra_metadata_table(mut_table, &table_lock)?;
+        #[cfg(jj_vcs_jj_verif)]
+        crate::verif_hooks::point("git.extras_saved", &id.hex());
         Ok((id, contents))
     }
 
